@@ -1267,6 +1267,17 @@ class Interp:
                 heap_view[ref.ref][0].setdefault(name, v)
             return v
         a = self.E.find_attr(o.cls, name)
+        if a is not None and a["k"] not in ("func", "property", "class") and (fr is None or not fr.spec) \
+                and self.E.instance_assigned(o.cls, name):
+            # a class-level default that some method of the class overwrites on the instance (`self.<name> = ...`): on an
+            # arbitrary object the attribute may hold the default OR what an earlier call stored - it is an instance field
+            # with an unknown pre-state, not a constant
+            ty = self.E._infer_optional_field(o.cls, name)
+            if ty is None:
+                raise Unsupported("field %s.%s (class-level default overwritten on instances) has no declared type" % (o.cls, name))
+            self.E.auto_fields.add("%s.%s: %s" % (o.cls, name, ty))
+            self.E.declare_class(o.cls, {name: ty})
+            return self.get_field(ref, name, fr, site, declared_only)
         if a is not None:
             if a["k"] == "func":
                 if a.get("deco") == "staticmethod":
